@@ -64,7 +64,11 @@ static long fn_refs (void)
       n += COUNTED_REF (fn_names[i]);
   return n;
 }
-static program_t *uobj_prog = 0;	/* program of /c06/uobj: its ref is printed as p: */
+static program_t *uobj_prog = 0;	/* program of /c06/uobj: its ref is printed as p:<uobj>/<base> */
+static program_t *base_prog = 0;	/* program of /c06/base, inherited by /c06/uobj */
+static int unloaded[2];		/* blueprint object of uobj / base destructed by `unload` */
+static long fault_first = 0;	/* fault-injection sweep: first instruction index after which the state differed */
+extern long verif_fault_countdown;	/* hook H2 (src/interpret.c): error raised at the k-th dispatched instruction */
 static object_t **anon = 0;		/* clones made by `clones n` */
 static int nanon = 0, capanon = 0;
 
@@ -170,6 +174,24 @@ static void track_slot (int d)
     }
 }
 
+/* counter of tracked value i; ~0 = its memory has been freed */
+static unsigned long cell_ref (int i)
+{
+  void *p = cells[i].p;
+  if (poisoned (p))
+    return ~0UL;
+  switch (cells[i].kind)
+    {
+    case K_ARR: case K_CLS: return ((array_t *) p)->ref;
+    case K_MAP: return ((mapping_t *) p)->ref;
+    case K_BUF: return ((buffer_t *) p)->ref;
+    case K_FN: return ((funptr_t *) p)->hdr.ref;
+    case K_OBJ: return ((object_t *) p)->ref;
+    case K_STR: return MSTR_REF ((char *) p);
+    }
+  return 0;
+}
+
 static void print_state (const char *status)
 {
   static char buf[400000];
@@ -218,11 +240,23 @@ static void print_state (const char *status)
       }
     *q = 0;
   }
-  char pf[32];
+  char pf[64], pa[24], pb[24];
   if (!uobj_prog || poisoned (uobj_prog))
-    snprintf (pf, sizeof pf, "x");
+    snprintf (pa, sizeof pa, "x");
   else
-    snprintf (pf, sizeof pf, "%u", (unsigned) uobj_prog->ref);
+    snprintf (pa, sizeof pa, "%lu", (unsigned long) uobj_prog->ref);
+  if (!base_prog || poisoned (base_prog))
+    snprintf (pb, sizeof pb, "x");
+  else
+    snprintf (pb, sizeof pb, "%lu", (unsigned long) base_prog->ref);
+  snprintf (pf, sizeof pf, "%s/%s", pa, pb);
+  if (fault_first)
+    {
+      /* only when a fault-injection sweep found a difference: the judge reports it with the verdict */
+      size_t l = strlen (tx);
+      snprintf (tx + l, sizeof tx - l, " k:%ld", fault_first);
+      fault_first = 0;
+    }
   if (pf[0] == 'x')
     vh_out ("%s st:%ld,%ld,%ld,%ld,-,-,%ld p:%s f:- t:%s", buf, now[0] - base[0], now[1] - base[1], now[2] - base[2],
             now[3] - base[3], now[6] - base[6], pf, tx);
@@ -585,7 +619,7 @@ static int applicable (int n, char **t, int *a)
   if (!strcmp (op, "popto"))
     return n == 2 && SL (a[1]) && depth > 0 && !lpc_mode;
   if (!strcmp (op, "newobj"))
-    return n == 2 && a[1] >= 0 && a[1] < NOBJ && !hobj (a[1]) && !exist_used[a[1]];
+    return n == 2 && a[1] >= 0 && a[1] < NOBJ && !hobj (a[1]) && !exist_used[a[1]] && !unloaded[0];
   if (!strcmp (op, "setvar"))
     return n == 4 && objok (a[1]) && a[2] >= 0 && a[2] < NVAR && SL (a[3]);
   if (!strcmp (op, "getvar"))
@@ -639,7 +673,20 @@ static int applicable (int n, char **t, int *a)
   if (!strcmp (op, "input"))
     return input_pending;
   if (!strcmp (op, "clones"))
-    return n == 2 && !lpc_mode && a[1] > 0;
+    return n == 2 && !lpc_mode && a[1] > 0 && !unloaded[0];
+  if (!strcmp (op, "unload"))
+    {
+      if (n != 2 || lpc_mode || a[1] < 0 || a[1] > 1 || unloaded[a[1]])
+        return 0;
+      for (int o = 0; o < NOBJ; o++)
+        if (exist_used[o] == 2)
+          return 0;
+      return 1;
+    }
+  if (!strcmp (op, "fefun"))
+    return n == 5 && lpc_mode && SL (a[2]) && SL (a[3]) && a[4] >= 0;
+  if (!strcmp (op, "frest"))
+    return n == 3 && lpc_mode && a[2] >= 0;
   if (!strcmp (op, "unclone"))
     {
       if (n != 2 || lpc_mode || nanon < a[1])
@@ -730,6 +777,7 @@ static int c06_cmd (char *line)
         if (tmp)
           {
             uobj_prog = tmp->prog;
+            base_prog = uobj_prog->num_inherited ? uobj_prog->inherit[0].prog : 0;
             destruct_object (tmp);
             remove_destructed_objects ();
           }
@@ -773,7 +821,8 @@ static int c06_cmd (char *line)
       {"mset", {1, 2, 3}}, {"mdel", {1, 2, 0}}, {"push", {1, 0, 0}}, {"popto", {1, 0, 0}},
       {"setvar", {3, 0, 0}}, {"getvar", {1, 0, 0}}, {"oref", {1, 0, 0}}, {"call", {4, 5, 0}},
       {"sent", {3, 4, 0}}, {"inp", {2, 3, 0}}, {"sappend", {1, 0, 0}}, {"sjoin", {1, 2, 0}}, {"sadd", {1, 2, 0}},
-      {"schar", {1, 0, 0}}, {"srange", {1, 0, 0}}, {"err", {1, 2, 0}}, {"efun", {2, 3, 0}}, {0, {0, 0, 0}}
+      {"schar", {1, 0, 0}}, {"srange", {1, 0, 0}}, {"err", {1, 2, 0}}, {"efun", {2, 3, 0}}, {"fefun", {2, 3, 0}},
+      {0, {0, 0, 0}}
     };
     for (int u = 0; uses[u].op; u++)
       if (!strcmp (uses[u].op, t[0]))
@@ -821,6 +870,79 @@ static int c06_cmd (char *line)
         }
       if (t[0][0] == 'c')
         applied = 1;
+    }
+  else if (!strcmp (t[0], "unload"))
+    {
+      /* the blueprint object is destructed and cleaned up: dealloc_object -> free_prog (ob->prog) */
+      object_t *bp = lookup_object_hash (a[1] ? "c06/base" : "c06/uobj");
+      if (!bp)
+        {
+          vh_out ("harness-error unload: no blueprint");
+          halted = 1;
+          return 1;
+        }
+      save_context (&econ);
+      if (!setjmp (econ.context))
+        {
+          destruct_object (bp);
+          remove_destructed_objects ();
+          pop_context (&econ);
+        }
+      else
+        {
+          restore_context (&econ);
+          pop_context (&econ);
+          status = "drivererr";
+        }
+      unloaded[a[1]] = 1;
+    }
+  else if (!strcmp (t[0], "fefun") || !strcmp (t[0], "frest"))
+    {
+      /* error paths, systematically: the no-effect operation `efun f s t` / `rest w` is run with an error injected
+       * at the k-th dispatched instruction (hook H2: the place where the evaluation-cost error is raised too);
+       * k = 0: for k = 1, 2, ... until the operation completes without reaching k.  After every run the
+       * (s)printf buffers are flushed and pending call_outs of the main object removed ("flush"), then all counters
+       * must be where they were. */
+      char buf[600], fl[] = "flush";
+      char *w[1] = { buf }, *wf[1] = { fl };
+      int isrest = t[0][1] == 'r';
+      long kk = isrest ? a[2] : a[4], k0 = kk ? kk : 1, k1 = kk ? kk : 4000;
+      long before[7], now[7];
+      unsigned long refs0[256];
+      int nc0 = ncells < 256 ? ncells : 256;
+      if (isrest)
+        snprintf (buf, sizeof buf, "rest %s", t[1]);
+      else
+        snprintf (buf, sizeof buf, "efun %d %d %d", a[1], a[2], a[3]);
+      snapshot (before);
+      for (int i = 0; i < nc0; i++)
+        refs0[i] = cell_ref (i);
+      for (long k = k0; k <= k1; k++)
+        {
+          int fired, diff = 0;
+          verif_fault_countdown = k;
+          vh_apply_str (main_ob, "do_op", 1, w, 0, 0);
+          fired = verif_fault_countdown == 0;
+          verif_fault_countdown = 0;
+          vh_apply_str (main_ob, "do_op", 1, wf, 0, 0);
+          snapshot (now);
+          for (int i = 0; i < 7; i++)
+            if (i != 5 && now[i] != before[i])
+              diff = 1;
+          for (int i = 0; i < nc0 && !diff; i++)
+            {
+              if (cell_ref (i) != refs0[i])
+                diff = 1;
+            }
+          if (diff)
+            {
+              if (!kk)
+                fault_first = k;
+              break;
+            }
+          if (!fired)
+            break;
+        }
     }
   else if (!strcmp (t[0], "cleanup"))
     {
